@@ -94,6 +94,7 @@ def r6_iterated_join(chk):
     tg = l.target
     key = f"{f.key}:attachment-index-shift"
     idx = jc.args[2]
+    order_free = False
     sub_arg = norm(jc.args[1])
     ok, how = False, ""
     # (a) for i, (ap, sub) in enumerate(zip(aps, combo)): join(.., sub, ap - i, ..)
@@ -103,6 +104,17 @@ def r6_iterated_join(chk):
         i_, ap_, s_ = norm(tg.elts[0]), norm(tg.elts[1].elts[0]), norm(tg.elts[1].elts[1])
         ok = z == [aps, combo] and norm(idx) == f"{ap_} - {i_}" and sub_arg == s_ and len(it.args) == 1
         how = f"enumerate(zip({', '.join(z)})) with index {norm(idx)}"
+        # order-independent form: the shift is the number of attachment points already consumed that preceded this one
+        if z == [aps, combo] and sub_arg == s_ and len(it.args) == 1 and isinstance(idx, ast.BinOp) and isinstance(idx.op, ast.Sub) and norm(idx.left) == ap_:
+            S = env.expand(idx.right, keep={aps, ap_, i_}, at=jc)
+            comp = S.args[0] if isinstance(S, ast.Call) and call_name(S) in ("sum", "len") and len(S.args) == 1 and isinstance(S.args[0], (ast.GeneratorExp, ast.ListComp)) else None
+            if comp is not None and len(comp.generators) == 1:
+                g = comp.generators[0]
+                p_ = norm(g.target)
+                conds = [norm(c) for c in g.ifs] + [norm(comp.elt)]
+                if norm(g.iter) == f"{aps}[:{i_}]" and any(c in (f"{p_} < {ap_}", f"{ap_} > {p_}") for c in conds):
+                    ok, order_free = True, True
+                    how = f"enumerate(zip({', '.join(z)})) with index {ap_} - #(earlier attachment points below {ap_})"
     # (b) / (c) for ap, sub in zip(X, Y)
     elif isinstance(it, ast.Call) and call_name(it) == "zip" and len(it.args) == 2 and isinstance(tg, ast.Tuple) and len(tg.elts) == 2:
         x, y = it.args
@@ -118,6 +130,47 @@ def r6_iterated_join(chk):
     chk.decide(ok, "C12.R6", key, f.where(jc), how,
                f"the joins run over {how}: the k-th substituent is not attached at the k-th attachment point of the core as shifted by the k joins already made "
                "(each join deletes one attachment atom in front of the later ones) - the product is a different regio-isomer, or an attachment atom is addressed that is no longer one")
+    # `ap - k` (and walking both sequences from the back) is the right address only if the attachment indices come in ascending
+    # order: an attachment point consumed earlier shifts a later one only when it precedes it in the atom list
+    if ok and not order_free:
+        m = f.module
+        callers = [(g, c) for g in prog.functions(["molli.scripts.combine"]) for c in walk_no_nested(g.node)
+                   if isinstance(c, ast.Call) and call_name(c) == "_ml_assemble" and len(c.args) >= 2]
+        chk.require(len(callers) >= 1, "_ml_assemble: no caller found in molli.scripts.combine")
+        for g, c in callers:
+            genv = Env(g.node)
+            a1 = c.args[1]
+            # the argument is an element of a sequence of per-core index lists: find the display those lists come from
+            srcs = []
+            if isinstance(a1, ast.Name):
+                # bound by a comprehension / loop target over zip(cores, X) or X
+                for comp in [x for x in ast.walk(g.node) if isinstance(x, ast.comprehension)] + [x for x in ast.walk(g.node) if isinstance(x, ast.For)]:
+                    if a1.id in {n.id for n in ast.walk(comp.target) if isinstance(n, ast.Name)}:
+                        for nm in [n for n in ast.walk(comp.iter) if isinstance(n, ast.Name)]:
+                            v = genv.single(nm.id)
+                            if v is not None and any(isinstance(y, ast.Call) and (call_name(y) or "").endswith(("index_atom", "get_atom_index")) for y in ast.walk(v)):
+                                srcs.append(v)
+            chk.require(len(srcs) == 1, f"{g.key}: where the attachment indices handed to _ml_assemble come from was not found")
+            branches = [srcs[0].body, srcs[0].orelse] if isinstance(srcs[0], ast.IfExp) else [srcs[0]]
+
+            def ascending(e):
+                """one list per core, each in ascending atom order"""
+                inner = e.elt if isinstance(e, ast.ListComp) and len(e.generators) == 1 else None
+                if inner is None:
+                    return False
+                if isinstance(inner, ast.Call) and call_name(inner) == "sorted":
+                    return True
+                txt = norm(inner)
+                core = norm(e.generators[0].target)
+                return txt in (f"list(map({core}.index_atom, {core}.attachment_points))", f"[{core}.index_atom(a) for a in {core}.attachment_points]",
+                               f"list(map({core}.get_atom_index, {core}.attachment_points))", f"[{core}.get_atom_index(a) for a in {core}.attachment_points]")
+
+            bad = [b for b in branches if not ascending(b)]
+            chk.decide(not bad, "C12.R6", f"{f.key}:attachment-indices-ascending", g.where(bad[0] if bad else c),
+                       "every list of attachment indices handed over is in atom order",
+                       f"_ml_assemble addresses the k-th attachment point as `{norm(idx)}`, which is right only for indices in ascending order, but {g.qualname} hands over "
+                       f"`{short(bad[0], 70) if bad else ''}`: the indices follow the order of the labels given, so with `--attachment_points B A` (B behind A in the atom list) the second join "
+                       "addresses the atom before the attachment point - an AssertionError, or a hydrogen of the core is replaced instead")
     # the substituent of a join is attached by its own first attachment point, onto the growing product
     ok2 = norm(jc.args[3]) == f"{sub_arg}.attachment_points[0]" and isinstance(jc.args[0], ast.Name)
     asg = assignments(f.node)
